@@ -1042,6 +1042,10 @@ func compare(r *core.Run, u *unit, results map[string]*jobResult, st *stats) {
 				r.Infra("no result for the output program of case %s config %s", u.hash, cf)
 				return
 			}
+			if out.Error == "harness: TIMEOUT" || in.Error == "harness: TIMEOUT" {
+				r.Infra("the Node runner gave up on a program of case %s config %s (a promise that never settles); no verdict for it", u.hash, cf)
+				return
+			}
 			if out.Error != "" {
 				problems = append(problems, fmt.Sprintf("[with-%s] output throws: %s", w, out.Error))
 				errText = out.Error
